@@ -161,6 +161,9 @@ func bodyMulti(c *hk.Ctx, prop string) {
 				if c.F(8, "configure-outcome") == 7 {
 					t.OnEvent["CONFIGURE"] = "error-stay"
 				}
+				if i > 0 && c.F(14, "unplaceable") == 13 {
+					t.WantCpu = 64 // no agent has that much: creation fails at deployment, after its siblings were launched
+				}
 			}
 			wf.Tasks = append(wf.Tasks, t)
 			m.specByClass[t.Class] = t
@@ -302,15 +305,31 @@ func (m *multi) destroy(e *envRec, force, keep, allowRunning bool) *request {
 	return r
 }
 
+// destroyAgain is a second, concurrent destroy request for an environment: recorded as a request,
+// the environment's own bookkeeping is left to the first one.
+func (m *multi) destroyAgain(e *envRec, force, keep, allowRunning bool) *request {
+	r := &request{Op: "DESTROY", Env: e.Idx, Force: force, Keep: keep, AllowRunning: allowRunning}
+	m.mu.Lock()
+	m.sc.Requests = append(m.sc.Requests, r)
+	r.invoke, r.invAt = m.s.mesos.Seq(), m.c.S.Now()
+	m.mu.Unlock()
+	_, err := m.rpc().rpc.DestroyEnvironment(context.Background(), &pb.DestroyEnvironmentRequest{Id: e.ID, Force: force, KeepTasks: keep, AllowInRunningState: allowRunning})
+	m.mu.Lock()
+	r.ret, r.retAt, r.done, r.Err = m.s.mesos.Seq(), m.c.S.Now(), true, errStr(err)
+	m.mu.Unlock()
+	m.c.Logf("DESTROY (second) env%d force=%v keep=%v -> err=%q", e.Idx, force, keep, r.Err)
+	return r
+}
+
 func (m *multi) cleanup() {
 	r := &request{Op: "CLEANUP"}
 	m.mu.Lock()
 	m.sc.Requests = append(m.sc.Requests, r)
-	r.invoke = m.s.mesos.Seq()
+	r.invoke, r.invAt = m.s.mesos.Seq(), m.c.S.Now()
 	m.mu.Unlock()
 	_, err := m.rpc().rpc.CleanupTasks(context.Background(), &pb.CleanupTasksRequest{})
 	m.mu.Lock()
-	r.ret, r.done, r.Err = m.s.mesos.Seq(), true, errStr(err)
+	r.ret, r.retAt, r.done, r.Err = m.s.mesos.Seq(), m.c.S.Now(), true, errStr(err)
 	m.mu.Unlock()
 }
 
@@ -415,7 +434,32 @@ func (m *multi) runOwnership() {
 					}
 				}
 				if c.W(8, "leave-env") != 7 {
-					m.destroy(e, c.W(3, "force") == 2, c.W(5, "keep") == 4, c.W(2, "allow-running") == 1)
+					force, keep, allow := c.W(3, "force") == 2, c.W(5, "keep") == 4, c.W(2, "allow-running") == 1
+					if m.prop == "C06" && c.W(5, "second-destroy") == 4 {
+						// two operators destroy the same environment at the same time: one of the
+						// requests cannot be honoured and must say so
+						var second *request
+						var wg2 simsync.WaitGroup
+						wg2.Add(1)
+						c.S.Go(fmt.Sprintf("client%d-second-destroy", cl), func() {
+							defer wg2.Done()
+							second = m.destroyAgain(e, force, keep, allow)
+						})
+						first := m.destroy(e, force, keep, allow)
+						wg2.Wait()
+						c.Count("probe.concurrent_destroys")
+						if first.Err == "" && second.Err == "" {
+							m.viol("C06", "destroy-that-cannot-be-honoured-errs", "two-concurrent-destroys-both-succeed", "two concurrent DestroyEnvironment requests for environment %d both returned success", e.Idx)
+						}
+						if first.Err != "" && second.Err == "" {
+							// the second one did the work
+							m.mu.Lock()
+							e.Destroyed, e.DestroyErr = true, ""
+							m.mu.Unlock()
+						}
+					} else {
+						m.destroy(e, force, keep, allow)
+					}
 				}
 				_ = cl
 			}
@@ -534,7 +578,11 @@ func (m *multi) checkOwnershipHistory(final *obs) {
 			}
 			for tid, owner := range final.owner {
 				if owner == e.ID {
-					m.viol("C06", "task-still-owned", kind, "task %s is still owned by environment %d after its %s", tid, e.Idx, kind)
+					k := kind
+					if st := m.s.mesos.Task(tid); st != nil && strings.Contains(st.Class, "hook") {
+						k += ":destroy-hook-task"
+					}
+					m.viol("C06", "task-still-owned", k, "task %s is still owned by environment %d after its %s", tid, e.Idx, kind)
 				}
 			}
 		}
@@ -603,6 +651,48 @@ func (m *multi) checkOwnershipHistory(final *obs) {
 					sig = "alive-after-cleanup:destroy-hook-task"
 				}
 				m.viol("C06", "leftover-survives-cleanup", sig, "task %s (%s) is alive, not owned by a listed environment (owner %q) and was not killed by CleanupTasks", t.ID, t.Class, owner)
+			} else if !known && !t.Killed {
+				// What did the core know of the task when it dropped it? Every roster pruning
+				// (doKillTasks: at the start of any creation, at the end of a failed one, in
+				// CleanupTasks, at the end of a destroy) forgets a task that has not reported
+				// TASK_RUNNING yet (listed known finding). The task counts as running for the core
+				// only if no such pruning can have fallen between its launch and the processing of
+				// its TASK_RUNNING.
+				var launchAt time.Duration
+				for _, cl := range m.s.mesos.CallsOfType("ACCEPT") {
+					for _, tid := range cl.Tasks {
+						if tid == t.ID {
+							launchAt = cl.At
+						}
+					}
+				}
+				knew := "not-yet-running-for-the-core"
+				if t.RunningAckAt >= 0 {
+					lo, hi := launchAt, t.RunningAckAt+100*time.Millisecond
+					pruned := false
+					within := func(a, b time.Duration) bool { return a <= hi && b >= lo }
+					for _, r := range m.sc.Requests {
+						if !r.done {
+							pruned = true
+							continue
+						}
+						switch {
+						case strings.HasPrefix(r.Op, "NEW"):
+							if within(r.invAt, r.invAt+50*time.Millisecond) || (r.Err != "" && within(r.retAt-500*time.Millisecond, r.retAt)) {
+								pruned = true
+							}
+						default: // CLEANUP, DESTROY
+							if within(r.invAt, r.retAt) {
+								pruned = true
+							}
+						}
+					}
+					if !pruned {
+						knew = "running-for-the-core"
+					}
+				}
+				gone := launchAt
+				m.viol("C06", "leftover-survives-cleanup", "alive-and-unknown-to-the-core:"+knew, "task %s (%s, %s, launched for environment %s; TASK_RUNNING acknowledged at %v, launched at %v) is alive, the core does not list it any more and CleanupTasks did not ask it to terminate", t.ID, t.Class, t.Mesos, t.EnvID, t.RunningAckAt, gone)
 			}
 		}
 	}
